@@ -435,6 +435,10 @@ class Lower:
         if key in self._rec_miss:
             return self._rec_miss[key]
         cands = [v for k, v in self.rec_by_t.items() if k.endswith('::' + key)]
+        if not cands and key.endswith('>'):
+            # defaulted trailing template arguments elided by the printer: unique specialisation with these leading arguments
+            pre = key[:-1] + ','
+            cands = [v for k, v in self.rec_by_t.items() if k.startswith(pre) or ('::' + pre) in k]
         ids = set(c['id'] for c in cands)
         r = cands[0] if len(ids) == 1 else None
         self._rec_miss[key] = r
